@@ -25,7 +25,9 @@ RULE = ('Programs from the typed generator G (labels, DEFtype ranges, >= 2 '
         'of other compilations (other texts, other options, failing '
         'compilations) in the same process; in fresh child processes with '
         'PYTHONHASHSEED = 0, 1, 12345 and random, a different working '
-        'directory and reversed batch order.  sha256 of sections 1-4 and of '
+        'directory and reversed batch order, in two of them each text '
+        'preceded by a sibling program with the same names but other record '
+        'sizes, array bounds, CONST values and DEFtype types.  sha256 of sections 1-4 and of '
         'str(code) must agree everywhere; each accepted module is run twice '
         'in-process and once per child: trace, outcome and tick count must '
         'agree.  Non-trivial: accepted and at least two of {procedure, '
@@ -44,7 +46,7 @@ _batch = []          # (text, script, key) of this shard, for the child runs
 def configure(tier, avoid):
     quick = tier == 'quick'
     p = gen.Params(max_stmts=12 if quick else 24, max_depth=2, expr_depth=2,
-                   max_procs=2, avoid=avoid)
+                   max_procs=2, dead_code=0.5, avoid=avoid)
     return {'examples': 128 if quick else 2400, 'params': p,
             'bounds': {'configs': [X.cfg_name(tuple(c)) for c in CONFIGS],
                        'hash_seeds': ['0', '1', '12345', 'random']},
@@ -61,9 +63,45 @@ def strategy(cfg):
                      st.integers(0, 10 ** 6), st.booleans())
 
 
+def variant(prog):
+    """A sibling program with the same names but other sizes and values:
+    one more field in every record type that is a field of another type,
+    wider arrays, other CONST values, other DEFtype types.  It is compiled
+    before the program itself in some child processes; whatever a name-keyed
+    cache remembers from it must not leak."""
+    import copy
+    from qv import ast as A
+    p2 = copy.deepcopy(prog)
+    inner = set()
+    for s in p2.body:
+        if isinstance(s, A.TypeDef):
+            for _, ft in s.fields:
+                if A.is_rec(ft):
+                    inner.add(ft[2:])
+    rot = {'%': '#', '&': '$', '!': '%', '#': '&', '$': '!'}
+    for s, _ in A.walk_stmts(p2.body):
+        if isinstance(s, A.TypeDef) and s.name in inner:
+            s.fields.insert(0, ('zzv', '#'))
+            s.fields.append(('zzw', '$'))
+        elif isinstance(s, A.Const) and isinstance(s.e, A.Num):
+            s.e = A.Num(s.e.t, 3, '3')
+        elif isinstance(s, A.DefType):
+            s.t = rot[s.t]
+        elif isinstance(s, A.Dim):
+            for d in s.decls:
+                if d.dims:
+                    d.dims = [(lo, A.Bin('+', hi, A.Num('%', 2, '2'), '%'))
+                              for lo, hi in d.dims]
+    return p2
+
+
 def check(case, cfg):
     (prog, script, stats), style, salt, break_it = case
     text = render.render(prog, style).text
+    try:
+        vtext = render.render(variant(prog), style).text
+    except Exception:
+        vtext = ''
     if break_it:
         # an invalid variant: drop one token-ish chunk
         words = text.split(' ')
@@ -92,7 +130,7 @@ def check(case, cfg):
     # history: compile earlier texts of this shard (other programs, other
     # options, failures), then this text again
     hist = _batch[-3:]
-    for k, (t, s, _) in enumerate(hist):
+    for k, (t, s, _, _v) in enumerate(hist):
         X.compile_one(t, (salt + k) % 3, bool((salt >> k) & 1))
     X.compile_one('PRINT "x" +\n', 1, True)              # a failing one
     X.compile_one('DEFSTR a-z\nx = "s"\n10 GOTO 10\n', 2, False)
@@ -101,7 +139,7 @@ def check(case, cfg):
         if again != first[tuple(c)]:
             failures.append(('after_history', {
                 'config': list(c), 'first': first[tuple(c)], 'again': again}))
-    _batch.append((text, script, key))
+    _batch.append((text, script, key, vtext))
     shapes = cases.shape_classes(prog)
     nontrivial = accepted and sum([
         'Proc' in shapes,
@@ -113,7 +151,8 @@ def check(case, cfg):
         if stats.get(k):
             cls.append('g:' + k)
     fl = [{'bucket': b, 'detail': d,
-           'case': {'text': text, 'script': script}} for b, d in failures]
+           'case': {'text': text, 'script': script, 'variant': vtext}}
+          for b, d in failures]
     return {'key': key, 'nontrivial': nontrivial, 'classes': cls,
             'failures': fl,
             'sample': {'source': text} if nontrivial and key[0] in '01'
@@ -125,8 +164,9 @@ def finish_shard(cfg):
     if not _batch:
         return []
     out = []
-    texts = [t for t, _, _ in _batch]
-    scripts = [s for _, s, _ in _batch]
+    texts = [b[0] for b in _batch]
+    scripts = [b[1] for b in _batch]
+    variants = [b[3] for b in _batch]
     X.set_parse_cache(False)
     base = {}
     runs0 = {}
@@ -147,6 +187,8 @@ def finish_shard(cfg):
         for seedv, order in conds:
             with open(bf, 'w') as f:
                 json.dump({'verif_root': ROOT, 'texts': texts,
+                           'variants': variants if order == 'reverse'
+                           else None,
                            'scripts': scripts, 'configs': CONFIGS,
                            'order': order,
                            'tick_budget': cfg['tick_budget']}, f)
@@ -168,7 +210,8 @@ def finish_shard(cfg):
                         seedv if seedv != 'random' else 'random'),
                         'detail': {'key': k, 'parent': base.get(k),
                                    'child': h, 'order': order},
-                        'case': {'text': texts[i], 'script': scripts[i]}})
+                        'case': {'text': texts[i], 'script': scripts[i],
+                                 'variant': variants[i]}})
                 out.append({'key': _batch[i][2] + ':' + seedv + k,
                             'nontrivial': False, 'classes': [
                                 'child:hashseed=' + seedv],
@@ -198,7 +241,7 @@ def replay(obj, cfg):
         if a != b:
             failures.append({'bucket': 'same_process_repeat',
                              'detail': {'config': list(c)}, 'case': obj})
-    _batch.append((text, script, 'replay'))
+    _batch.append((text, script, 'replay', obj.get('variant') or ''))
     for r in finish_shard(cfg):
         failures.extend(r.get('failures', []))
     return {'failures': failures}
